@@ -375,7 +375,7 @@ func (w *c02World) adversaryStep() {
 }
 
 func runC02(r *ev.Run) {
-	r.Rule = "session level: an honest pair, an unrelated honest pair and two sessions paired with a raw attacker feed one pool; a seeded adversary replays, forwards, reflects, duplicates, bit-flips, truncates, extends, splices, rewrites counters, cross-feeds and triggers Sends; oracles: (a) every app plaintext was sent by the session's authenticated peer and at most once per (session,counter), (b) no ciphertext counter repeats per session (hook at encryption, cross-checked with the wire), (c) no plaintext >=16 bytes on the wire, (d) counter limit; channel level: the same over real Channels with millisecond rekey. non-trivial = handshakes completed and >=1 adversarial action hit a ready session; distinct = (action-kind multiset class, completion shape)"
+	r.Rule = "session level: an honest pair, an unrelated honest pair and two sessions paired with a raw attacker feed one pool; a seeded adversary replays, forwards, reflects, duplicates, bit-flips, truncates, extends, splices, rewrites counters, cross-feeds and triggers Sends; oracles: (a) every app plaintext was sent by the session's authenticated peer and at most once per (session,counter), (b) no ciphertext counter repeats per session (hook at encryption, cross-checked with the wire), (c) no plaintext >=16 bytes on the wire, (d) counter limit; channel level: the same over real Channels with millisecond rekey; swarm level: p2pkeswarm nodes over a transport that replays ~40% of the datagrams, several (partly slow) receive workers per node, unique self-describing payloads: every delivery authentic, unaltered, stable during its callback, and at most once. non-trivial = handshakes completed and >=1 adversarial action hit a ready session; distinct = (action-kind multiset class, completion shape)"
 	verifhook.EnableSink(true)
 	defer verifhook.EnableSink(false)
 	n := pick(r, 500, 20000)
@@ -426,6 +426,32 @@ func runC02(r *ev.Run) {
 	}
 	c02CounterLimit(r)
 	runC02Channel(r)
+	runC02Swarm(r)
+}
+
+// runC02Swarm: the same property at the layer applications use. p2pkeswarm nodes over a transport that replays datagrams;
+// several receive workers per node, some of them slow. Every delivered payload must be one its source told to this node
+// (authentic, unaltered, stable for the duration of the callback) and a payload told once is delivered at most once.
+func runC02Swarm(r *ev.Run) {
+	n := pick(r, 1, 4)
+	for i := 0; i < n; i++ {
+		caseID := fmt.Sprintf("swarm-%d-%d", r.Batch, i)
+		if !r.Want(caseID) {
+			continue
+		}
+		g := rng.New(r.Seed, "C02swarm", fmt.Sprint(r.Batch), fmt.Sprint(i))
+		st := buildP2PKEWire(stackOpts{n: 3}, g.Fork())
+		cfg := c01Cfg{senders: g.Range(2, 4), receivers: g.Range(2, 4), repeats: pick(r, 2, 4), replies: true, atMostOnce: true}
+		d := runLedgerWorkload(r, st, g, caseID, cfg, "C02")
+		if d == 0 {
+			r.Inconclusive("c02 swarm: nothing delivered")
+		} else {
+			r.NonTrivial(fmt.Sprintf("swarm/replaying-wire/senders=%d/receivers=%d", cfg.senders, cfg.receivers))
+		}
+		if i == 0 {
+			r.Sample(map[string]any{"family": "p2pkeswarm over a replaying transport", "delivered": d, "senders_per_node": cfg.senders, "receivers_per_node": cfg.receivers})
+		}
+	}
 }
 
 // c02CounterLimit: oracle (d).
